@@ -1250,3 +1250,20 @@ impl SrtpSession {
         }
     }
 }
+
+#[cfg(rustrtc_verif)]
+impl SrtpSession {
+    /// Make the transmit context of `ssrc` look `secs` seconds older (sender-side idle time).
+    pub fn verif_backdate_tx(&mut self, ssrc: u32, secs: u64) -> bool {
+        match self.tx_contexts.get_mut(&ssrc) {
+            Some(c) => match c.last_used.checked_sub(std::time::Duration::from_secs(secs)) {
+                Some(t) => {
+                    c.last_used = t;
+                    true
+                }
+                None => false,
+            },
+            None => false,
+        }
+    }
+}
